@@ -105,6 +105,40 @@ def main(argv):
                                                  observed=dict(differing_rules=diff, tables=snap["tables"], scope_open=snap["scope"])))
                     elif len(samples) < 2 and n == maxlen:
                         samples.append(dict(history=list(hist), final=final, rules=len(snap["registry"])))
+    if which in ("all", "C09"):
+        # a failing parse leaves the set of symbol tables as it was and no scope open
+        from fparser.common.readfortran import FortranStringReader
+        from fparser.two.symbol_table import SYMBOL_TABLES
+        failing = {
+            "single_unit": INVALID,
+            "second_unit": "module m2\nend module m2\nsubroutine s2\n x = = 1\nend subroutine s2\n",
+            "nested_unit": "module m3\ncontains\nsubroutine s3\n x = = 1\nend subroutine s3\nend module m3\n",
+            "third_unit": "subroutine a1\nend subroutine a1\nfunction a2()\nend function a2\nprogram a3\n x = (\nend program a3\n",
+            "same_name_as_existing_table": "module m\n x = = 1\nend module m\n",
+            "missing_end": "module m4\ncontains\nsubroutine s4\nend module m4\n",
+        }
+        for std in ("f2003", "f2008"):
+            for pre in ([], ["valid"], ["invalid", "valid"]):
+                for fname, fsrc in failing.items():
+                    parser = ParserFactory().create(std=std)
+                    for step in pre:
+                        try:
+                            parser(FortranStringReader(VALID if step == "valid" else INVALID))
+                        except BaseException:  # noqa
+                            pass
+                    before = sorted(SYMBOL_TABLES._symbol_tables)
+                    cases += 1
+                    try:
+                        parser(FortranStringReader(fsrc))
+                        raised = False
+                    except BaseException:  # noqa
+                        raised = True
+                    after = sorted(SYMBOL_TABLES._symbol_tables)
+                    scope = SYMBOL_TABLES.current_scope
+                    if not raised or after != before or scope is not None:
+                        failures.append(dict(obligation="two.symbol_table:SYMBOL_TABLES#failing_parse_leaves_nothing_behind",
+                                             witness=dict(std=std, before=pre, failing=fname, source=fsrc),
+                                             observed=dict(raised=raised, tables_before=before, tables_after=after, scope_open=scope is not None)))
     if which in ("all", "C17"):
         r03, r08 = ref["f2003"]["registry"], ref["f2008"]["registry"]
         divergent = set()
